@@ -1,6 +1,7 @@
 """Shared by props/c08.py and props/c13.py: script generators, Gallina emitters and helper predicates for the
 equalizer (model F).  No playback import here."""
 import itertools
+import os
 
 from lib.gallina import gnat, gbool, glist, gopt, gpair
 
@@ -56,7 +57,10 @@ def g_script(case):
 
 
 def g_cfg(case):
-    return "(Cfg %s %s %s false)" % (gnat(case["rate"]), gnat(case["timeout"]), gbool(case["keep"]))
+    # EQ_MODEL_FRESH_QUEUES=1: compare with the model of the candidate repair (fresh queues per worker) - used to
+    # validate notes/F08_candidate_fix.patch on a scratch tree; the default is the code as it is
+    fresh = os.environ.get("EQ_MODEL_FRESH_QUEUES") == "1"
+    return "(Cfg %s %s %s %s)" % (gnat(case["rate"]), gnat(case["timeout"]), gbool(case["keep"]), gbool(fresh))
 
 
 def g_stop(case):
